@@ -135,6 +135,8 @@ func runC06(c *Ctx) {
 	c.Rule("R06a", "writers re-hash: in every function (declaration or literal) that writes a file into a migrate.Dir (WriteFile/WriteCheckpoint, name other than atlas.sum), every path from the success edge of the write to a non-error return passes a call reaching migrate.WriteSumFile (listed exception: migrate.UnarchiveDirFrom restores an archive verbatim, including its own atlas.sum; Dir implementations' own WriteFile/WriteCheckpoint forwarders are the primitive)", 7)
 	c.Rule("R06b", "every `atlas migrate` sub-command validates the directory before consuming it: PreRunE (checkDir / migrate.Validate) or, for apply and lint, the run function; the validation result is returned or tested, never discarded; commands are enumerated from the command tree and each must have a table entry", 9)
 	c.Rule("R06c", "digest construction: NewHashFile feeds Name() and Bytes() of every file into one running hash created outside the loop; HashFile.Sum covers N and H; MarshalText/UnmarshalText agree on the h1: prefix; UnmarshalText verifies the header sum and returns ErrChecksumMismatch", 6)
+	c.Rule("R06g", ruleTextSumLineSplit, 1)
+	checkSumLineSplit(c, "R06g")
 	c.Rule("R06d", "migrate.Validate: compares stored and recomputed sums; every path through the mismatch branch returns a non-nil error; Executor.Pending validates before reading revisions or files", 3)
 
 	dir := c.dirIface()
@@ -709,21 +711,52 @@ func checkDigest(c *Ctx) {
 	mf := c.Func("R06c", pMigrate, "HashFile", "MarshalText")
 	uf := c.Func("R06c", pMigrate, "HashFile", "UnmarshalText")
 	if mf != nil && uf != nil {
-		// prefixes used by marshal: format strings containing "h1:"
-		mPrefix, uPrefix := 0, 0
-		ast.Inspect(mf.Decl.Body, func(m ast.Node) bool {
-			if bl, ok := m.(*ast.BasicLit); ok && strings.Contains(bl.Value, "h1:") {
-				mPrefix++
+		// separator agreement: every constant the reader strips or splits on occurs in a constant the writer emits
+		// (constants are resolved through the type checker: literals, named constants, concatenations)
+		constsOf := func(fi *FuncInfo, onlyStringsArgs bool) map[string]bool {
+			out := map[string]bool{}
+			inf := fi.Info()
+			ast.Inspect(fi.Decl.Body, func(m ast.Node) bool {
+				if onlyStringsArgs {
+					call, ok := m.(*ast.CallExpr)
+					if !ok {
+						return true
+					}
+					fn := calleeOf(inf, call)
+					if fn == nil || fn.Pkg() == nil || fn.Pkg().Path() != "strings" {
+						return true
+					}
+					for _, a := range call.Args[1:] {
+						if k, ok := stringConst(inf, a); ok && k != "" {
+							out[k] = true
+						}
+					}
+					return true
+				}
+				if e, ok := m.(ast.Expr); ok {
+					if k, ok := stringConst(inf, e); ok && k != "" {
+						out[k] = true
+					}
+				}
+				return true
+			})
+			return out
+		}
+		w, r := constsOf(mf, false), constsOf(uf, true)
+		missing := []string{}
+		for k := range r {
+			found := false
+			for wk := range w {
+				if strings.Contains(wk, k) {
+					found = true
+				}
 			}
-			return true
-		})
-		ast.Inspect(uf.Decl.Body, func(m ast.Node) bool {
-			if bl, ok := m.(*ast.BasicLit); ok && bl.Value == `"h1:"` {
-				uPrefix++
+			if !found {
+				missing = append(missing, k)
 			}
-			return true
-		})
-		c.Check("R06c", "MarshalText/UnmarshalText|h1: prefix", mf.Decl.Pos(), mPrefix == 2 && uPrefix == 2, "marshal writes the h1: prefix %d times (header + entries), unmarshal strips/splits on it %d times: expected 2 and 2", mPrefix, uPrefix)
+		}
+		sort.Strings(missing)
+		c.Check("R06c", "MarshalText/UnmarshalText|separators agree", mf.Decl.Pos(), len(r) > 0 && len(missing) == 0, "UnmarshalText strips or splits on %q, which MarshalText never writes (writer constants: %v): a sum file written by Atlas is not read back as written", missing, keys(w))
 		// header verified
 		info := uf.Info()
 		verified := false
